@@ -39,6 +39,7 @@ fn main() {
             }
         }
         "ver" => fnprops::ver(&args[2], &args[3]),
+        "gen" => fnprops::generator(&args[2], &args[3]),
         "time" => fnprops::time(&args[2], &args[3], seed),
         _ => {
             eprintln!("usage: vh sm [scenarios.ndjson|-] [log.ndjson|-]");
